@@ -76,7 +76,25 @@ CheckSpec == Init /\\ [][FALSE]_vars
     for idx, problems in bad:
         for p in problems:
             chk.violation("agents/mailbox-race/%s/%s" % (p, recs[idx]["order"]), "forced interleaving judged by Agents!RaceProblems: " + json.dumps(recs[idx]), recs[idx])
-    chk.cov["traces_validated_against_impl"] = len(hs) + n
+    # at the level of the whole node: a client registers an endpoint while bundles for it are already stored (they were taken for
+    # forwarding); the next dispatch hands each of them over once, reports it once and releases it
+    from props import corecommon as cc
+    latefam = dict(peers=["p1", "p2"], enabled=["Receive", "Submit", "PeerUp", "RetryTick", "Register", "Restart"],
+                   cat={"m1": cc.attr("p1", "late", prev="p1", req=("dlv",)), "m2": cc.attr("app", "late"), "m3": cc.attr("p1", "app", prev="p1")})
+
+    def after_register(h):
+        acts = [st["act"] for st in h]
+        if "Register" not in acts:
+            return 0
+        i = acts.index("Register")
+        return (1 + len(h[i]["exp"]["stored"])) * sum(1 for a in acts[i + 1:] if a in ("RetryTick", "PeerUp", "Restart"))
+    plans = [dict(name="late-registration", fam=latefam, algo=a, budget=3, steps=4 if quick else 5, sim=(400, 9) if quick else (6000, 12),
+                  cap=160 if quick else 3000, mc=(a == "epidemic"), prefer=after_register) for a in (["epidemic"] if quick else ["epidemic", "spray", "dtlsr"])]
+    total7, st7 = cc.run_families(chk, "C07", plans, tier)
+    cc.own_violations(chk, "C07")
+    if st7.get("act_Register", 0) == 0 or st7.get("expected_deliveries", 0) == 0:
+        raise InfraError("vacuous late-registration replay: %s" % st7)
+    chk.cov["traces_validated_against_impl"] = len(hs) + n + total7
     chk.cov["evaluations"] = len(hs) + n
     chk.cov["distinct_nontrivial"] = len(hs)
     chk.cov["yield_points_reached"] = st2.get("yield_points_reached")
